@@ -83,6 +83,22 @@ def memo_vid(case, mi):
     return A.key(ki)["vid"].encode() if (ki is not None and cfgs(case)[0][mi][0] in A.SIGNED) else None
 
 
+def burst(n, per=1, code="bAAA", curt=False, dup=False, ki=None):
+    """n memos held / interleaved by the receiver at once.  per = 1: n one-gram memos arriving in ONE service pass; per = 3: n three-gram memos
+    sent round robin (gram 0 of every memo, then gram 1 of every memo, …; with dup the first round is repeated in between), each round one pass"""
+    zo, no = A.ref_overheads(code, False)
+    zo = 3 * zo // 4 if curt else zo
+    size = max(zo, no) + 2                       # 2 body bytes per later gram, a few more in the zeroth
+    ln = 1 if per == 1 else (size - zo) + 2 * (per - 2) + 1
+    memos = [(bytes([97 + (i + j) % 26 for j in range(ln)]), 5000 + i, 1 + i % 3) for i in range(n)]
+    if per == 1:
+        sched = [("all", [(i, 0) for i in range(n)])]
+    else:
+        rounds = [[(i, g) for i in range(n)] for g in range(per)]
+        sched = [("all", rounds[0])] + ([("all", list(reversed(rounds[0])))] if dup else []) + [("all", r) for r in rounds[1:]]
+    return ("e2e", code, curt, size, code in A.SIGNED, ki, memos, sched, [], "rend")
+
+
 def simulate(case, counts, f32, f33):
     """spec-level receiver: which (memo index, source) reach the inbox at each service call.
     f32: a signed non-zeroth gram is dropped unless the zeroth gram of its memo is held;  f33: a memo that completes again is delivered again.
@@ -162,7 +178,7 @@ class C20(core.Check):
                  "Base64 helpers re-proved in the package, signatures abstract) + differential end-to-end run: real rend -> scheduled delivery "
                  "(permutations, duplicates, interleavings, batches) -> real receive servicing, against the compiled model")
     quick_n = 500
-    thorough_n = 7000
+    thorough_n = 6000
     level_text = ("Proved for ALL inputs (unbounded; 35 theorems). Configuration histories: setters_legal / size_setter_spec — after the constructor and ANY "
                   "sequence of .code/.curt/.size assignments the stored gram size is >= the minimum of the code and encoding then in force (every setter "
                   "re-clamps), so rend_fuse_after_history applies. Sender: rend_fuse (bodies concatenate to the memo in gram-number order, none empty, count "
@@ -243,10 +259,22 @@ class C20(core.Check):
         ]
 
     def exhaustive(self, tier):
+        # how many memos the receiver holds / interleaves at once: N around powers of two
+        big = []
+        for k in range(6, 11 if tier != "thorough" else 14):
+            for n in (2 ** k - 1, 2 ** k, 2 ** k + 1):
+                if tier == "thorough" or n in (2 ** k + 1, 64):
+                    big.append(burst(n, 1, code=("bAAA", "bAAE")[k % 2], curt=bool(k % 2)))
+                if k <= (8 if tier != "thorough" else 11) and (tier == "thorough" or n == 2 ** k + 1):
+                    big.append(burst(n, 3, dup=bool(k % 2)))
+        big.append(burst(70, 3, dup=True))
+        big.append(burst(70, 1, code="bAAC", ki=0))
+        big.append(burst(65, 3, code="bAAG", curt=True, ki=2, dup=True))
         if tier != "thorough":
-            return [], None
+            return big, ("N memos pending at once (one-gram bursts in one pass N = 2**k+1, k = 6..10; three-gram round-robin interleavings N = 2**k+1, "
+                         "k = 6..8, and 70 with duplicates; signed 65 / 70)")
         import itertools
-        cs = []
+        cs = big
         memo = [(b"abcdefghij", 1, 1)]
         for code, curt, size in (("bAAA", False, 36), ("bAAE", True, 36)):
             # 3 grams (b64: 4+4+2 ; b2: 12 | would be 1) -> pick sizes so that there are exactly 3 grams
@@ -255,7 +283,8 @@ class C20(core.Check):
                     seq = list(perm) + ([perm[dup]] if dup < 3 else [])
                     for cut in range(len(seq) + 1):
                         cs.append(("e2e", code, curt, size, False, None, memo, [[(0, g) for g in seq[:cut]], [(0, g) for g in seq[cut:]]]))
-        return cs, "one 10-byte memo in 3 grams (plain b64, sure b2): all 6 delivery orders x one optional duplicate x every 2-batch cut"
+        return cs, ("N memos pending at once (one-gram bursts N = 2**k-1, 2**k, 2**k+1, k = 6..13; three-gram round robin k = 6..11); "
+                    "one 10-byte memo in 3 grams (plain b64, sure b2): all 6 delivery orders x one optional duplicate x every 2-batch cut")
 
     def generate(self, rng, n, tier):
         for _ in range(n):
@@ -474,7 +503,7 @@ class C20(core.Check):
                 return ["receive-servicing-raised:" + o[1]]
         if len(rx) != len(want):
             return ["observation-shape"]
-        sent = [(bytes(m[0]), memo_vid(case, mi)) for mi, m in enumerate(memos)]
+        sent = {(bytes(m[0]), memo_vid(case, mi)) for mi, m in enumerate(memos)}
         for w, o in zip(want, rx):
             got = list(o[0][1:])
             exp = [(bytes(memos[mi][0]), src, memo_vid(case, mi)) for mi, src in w]
